@@ -45,6 +45,11 @@ const Prelude = `
 (assert (forall ((s Slice) (lo Int) (hi Int) (mx Int)) (! (= (subslice s lo hi mx) (mkslice (sbase s) (+ (soff s) lo) (- hi lo) (- mx lo))) :pattern ((subslice s lo hi mx)))))
 (assert (forall ((h (Array Ptr Int)) (s Slice) (lo Int) (hi Int) (mx Int)) (! (=> (and (<= 0 lo) (<= lo hi) (<= hi (slen_ s))) (= (content h (subslice s lo hi mx)) (ssub (content h s) lo hi))) :pattern ((content h (subslice s lo hi mx))))))
 (declare-fun scat (Str Str) Str)
+(assert (forall ((a Str)) (! (= (scat str_empty a) a) :pattern ((scat str_empty a)))))
+(assert (forall ((a Str)) (! (= (scat a str_empty) a) :pattern ((scat a str_empty)))))
+(assert (forall ((a Str) (b Str) (l Int) (h Int)) (! (=> (and (<= 0 l) (<= l h) (<= h (slen a))) (= (ssub (scat a b) l h) (ssub a l h))) :pattern ((ssub (scat a b) l h)))))
+(assert (forall ((a Str) (b Str) (l Int) (h Int)) (! (=> (and (<= (slen a) l) (<= l h) (<= h (+ (slen a) (slen b)))) (= (ssub (scat a b) l h) (ssub b (- l (slen a)) (- h (slen a))))) :pattern ((ssub (scat a b) l h)))))
+(assert (forall ((a Str) (h Int)) (! (=> (= h (slen a)) (= (ssub a 0 h) a)) :pattern ((ssub a 0 h)))))
 (assert (forall ((a Str) (b Str)) (! (= (slen (scat a b)) (+ (slen a) (slen b))) :pattern ((scat a b)))))
 (assert (forall ((a Str) (b Str) (i Int)) (! (= (sat (scat a b) i) (ite (< i (slen a)) (sat a i) (sat b (- i (slen a))))) :pattern ((sat (scat a b) i)))))
 (assert (forall ((a Str) (l Int) (h Int)) (! (=> (and (<= 0 l) (<= l h) (<= h (slen a))) (= (slen (ssub a l h)) (- h l))) :pattern ((ssub a l h)))))
